@@ -266,6 +266,24 @@ theorem bProps_numbering (c : Ctx) (np : List Str) (io : Bool) (n : Nat) (ps : L
         simp only [List.getElem_cons_succ]
         refine ⟨by rw [this.1]; omega, this.2.1, this.2.2⟩
 
+/-- every field emitted for a oneof carries oneof index 0, none of an object's does -/
+theorem bProps_fld_oneof (c : Ctx) (np : List Str) (io : Bool) (n : Nat) (ps : List Property) :
+    ∀ f ∈ (bProps c np io n ps).flds, f.oneof = (if io then some 0 else none) := by
+  induction ps generalizing n with
+  | nil => intro f hf; simp [bProps_nil] at hf
+  | cons p ps ih =>
+    intro f hf
+    rw [bProps_cons] at hf
+    simp only [List.mem_append] at hf
+    rcases hf with hf | hf
+    · cases hfld : (bProperty c np io n p).fld with
+      | none => simp [hfld] at hf
+      | some g =>
+        simp only [hfld, List.mem_singleton] at hf
+        subst hf
+        exact (bProperty_fld c np io n p f hfld).2.2.2.1
+    · exact ih (n + 1) f hf
+
 /-! ## enums -/
 
 theorem zipIdx_append_one {α : Type} (l : List α) (a : α) (k : Nat) :
@@ -376,5 +394,36 @@ theorem convDecl_errs (c : Ctx) (np : List Str) (io : Bool) (virt : List Propert
         + (convNested c (np ++ [name]) nested).errs := by
   rw [convDecl]
   simp only [bProps_append_eff, Eff.add, Nat.add_comm 1 virt.length]
+
+/-- the message of a declaration, whatever way the declaration is written -/
+def declMsgOf (c : Ctx) (np : List Str) (io : Bool) (virt : List Property) (o : ObjDecl) : MsgSkel :=
+  declMsg c np io virt o.name o.props o.nested o.psm
+
+theorem convDecl_msgOf (c : Ctx) (np : List Str) (io : Bool) (virt : List Property) (o : ObjDecl) :
+    declMsgOf c np io virt o ∈ (convDecl c np io virt o).msgs := by
+  cases o with
+  | mk name props nested psm =>
+    rw [convDecl_msgs]
+    simp [declMsgOf, ObjDecl.name, ObjDecl.props, ObjDecl.nested, ObjDecl.psm]
+
+/-- **names and numbers of all fields of a declaration's message**, as one list equation -/
+theorem declMsgOf_fields (c : Ctx) (np : List Str) (io : Bool) (virt : List Property) (o : ObjDecl)
+    (h : (convDecl c np io virt o).errs = 0) :
+    (declMsgOf c np io virt o).fields.map (fun f => (f.name, f.number)) =
+      (virt ++ o.props).zipIdx.map fun (p, i) => (toSnake p.name, i + 1) := by
+  cases o with
+  | mk name props nested psm =>
+    rw [convDecl_errs] at h
+    have herr : (bProps c (np ++ [name]) io 1 (virt ++ props)).eff.errs = 0 := by omega
+    obtain ⟨hl, hn⟩ := bProps_numbering c (np ++ [name]) io 1 (virt ++ props) herr
+    simp only [declMsgOf, declMsg, mkMsg, MsgSkel.fields, ObjDecl.name, ObjDecl.props]
+    apply List.ext_getElem
+    · simp [hl]
+    · intro i h1 h2
+      have hi : i < (virt ++ props).length := by simpa using h2
+      have hf : i < (bProps c (np ++ [name]) io 1 (virt ++ props)).flds.length := by rw [hl]; exact hi
+      have := hn i hi hf
+      simp only [List.getElem_map, List.getElem_zipIdx, this.1, this.2.1]
+      simp [Nat.add_comm]
 
 end J5V.Compile
